@@ -49,6 +49,8 @@ type seekableDecryptingReader struct {
 	segStart  int64 // plaintext offset where the buffered segment begins
 	plaintext []byte
 	segBuf    []byte
+	// endVerified is set once the final segment has been authenticated.
+	endVerified bool
 }
 
 const (
@@ -192,12 +194,24 @@ func (s *seekableDecryptingReader) loadSegment(j int64) error {
 	}
 	s.plaintext = plaintext
 	s.segIndex = j
+	if j == s.numSegments-1 {
+		s.endVerified = true
+	}
 	s.segStart = s.plaintextStartOfSegment(j)
 	return nil
 }
 
 func (s *seekableDecryptingReader) Read(p []byte) (int, error) {
 	if s.pos >= s.plaintextLen {
+		// The final segment can hold fewer plaintext bytes than were asked
+		// for, down to none at all (only its tag), so reads may never load
+		// it. Authenticate it before reporting a clean end: otherwise a
+		// stream cut just past a segment boundary passes for complete.
+		if !s.endVerified {
+			if err := s.loadSegment(s.numSegments - 1); err != nil {
+				return 0, err
+			}
+		}
 		return 0, io.EOF
 	}
 	j := s.segmentForPlaintextOffset(s.pos)
